@@ -69,22 +69,52 @@ def find_and_delete_codesep(script: bytes) -> bytes:
     return out
 
 
-def legacy(script_code: bytes, tx: dict, idx: int, hashtype: int) -> bytes:
+def is_truncated(script: bytes) -> bool:
+    """does the script end in a push that announces more bytes than there are?"""
+    stop = 0
+    for _op, _start, stop in script_ops(script):
+        pass
+    return stop != len(script)
+
+
+def serialize_script_code_core(script: bytes) -> bytes:
+    """CTransactionSignatureSerializer::SerializeScriptCode as Core has written it since 0.14: the length announced is the script's less its
+    OP_CODESEPARATORs, and the bytes are copied up to where GetOp stopped -- which, for a script ending in a push that cannot be read, is just after that
+    push's opcode and length bytes, so that fewer bytes follow than were announced. (On a script every push of which can be read this is the same string
+    as FindAndDelete's; a script with an unreadable push never verifies, so that the difference is unobservable in consensus.)"""
+    n_sep, pieces, begin, it = 0, [], 0, 0
+    for op, start, stop in script_ops(script):
+        it = stop
+        if op == OP_CODESEPARATOR:
+            n_sep += 1
+            pieces.append(script[begin:start])
+            begin = stop
+    if it != len(script):  # GetOp failed at `it`: the opcode is consumed, and the length bytes of a PUSHDATA if they are all there
+        op, it = script[it], it + 1
+        width = {0x4C: 1, 0x4D: 2, 0x4E: 4}.get(op, 0)
+        if width and it + width <= len(script):
+            it += width
+    pieces.append(script[begin:it])
+    return compact_size(len(script) - n_sep) + b"".join(pieces)
+
+
+def legacy(script_code: bytes, tx: dict, idx: int, hashtype: int, tail: str = "verbatim") -> bytes:
     """Core's legacy SignatureHash (CTransactionSignatureSerializer). hashtype is
-    the 32-bit int; base type is hashtype & 0x1f."""
+    the 32-bit int; base type is hashtype & 0x1f. `tail` chooses what becomes of the bytes after an unreadable push:
+    "verbatim" (FindAndDelete's reading, the one btclib documents) or "core" (serialize_script_code_core)."""
     assert 0 <= idx < len(tx["vin"])
     base = hashtype & 0x1F
     acp = bool(hashtype & SIGHASH_ANYONECANPAY)
     if base == SIGHASH_SINGLE and idx >= len(tx["vout"]):
         return (1).to_bytes(32, "little")
-    script_code = find_and_delete_codesep(script_code)
+    written = serialize_script_code_core(script_code) if tail == "core" else ser_string(find_and_delete_codesep(script_code))
     r = struct.pack("<I", tx["version"])
     ins = [idx] if acp else list(range(len(tx["vin"])))
     r += compact_size(len(ins))
     for j in ins:
         i = tx["vin"][j]
         r += ser_outpoint(i)
-        r += ser_string(script_code) if j == idx else b"\x00"
+        r += written if j == idx else b"\x00"
         if j != idx and base in (SIGHASH_SINGLE, SIGHASH_NONE):
             r += struct.pack("<I", 0)
         else:
